@@ -66,7 +66,7 @@ def run_unit(template, repo, workdir, name=None, canary=False, extra_args=(), ti
         return res
     cmd = ["verus", out_rs, "--output-json", "--time-expanded", "--error-format=json", "--multiple-errors", "50"]
     if seed is not None:
-        cmd += ["-V", f"smt-option=smt.random_seed={int(seed) % 1000000}"] if False else []
+        cmd += ["--smt-option", f"smt.random_seed={int(seed) % 1000000}"]
     cmd += list(extra_args)
     res["cmd"] = " ".join(["verus", name + ".rs"] + cmd[2:])
     try:
